@@ -36,7 +36,7 @@ ids = sys.argv[1:] or sorted(d for d in os.listdir(SEEDED) if os.path.isfile(os.
 changed = 0
 with ThreadPoolExecutor(max_workers=int(os.environ.get('WORKERS', '10'))) as ex:
     for mid, before, now in ex.map(run_one, ids):
-        if (before or '').split(' ')[0] != (now or '').split(' ')[0]:
+        if (before or '').split(' ')[0].replace('ANALYSIS-BROKEN', 'UNDECIDED') != (now or '').split(' ')[0]:
             changed += 1
             print('%-12s before: %-20s now: %s' % (mid, before, now), flush=True)
 print('SUMMARY %d seeds, %d verdicts changed' % (len(ids), changed))
